@@ -16,6 +16,7 @@ pub mod neon_gen {
 }
 pub mod props;
 pub mod real;
+pub mod selftest;
 
 /// the repository under test (default /repo; VERIF_REPO selects a copy, used only for
 /// side experiments such as background thorough runs and mutant testing on a scratch copy)
